@@ -8,6 +8,7 @@ import AferoVerif.Engine.Path
 import AferoVerif.Engine.MemFs
 import AferoVerif.Engine.RoFs
 import AferoVerif.Engine.CowFs
+import AferoVerif.Engine.BpFs
 open AferoVerif
 
 partial def loop {σ : Type} (h : IO.FS.Stream) (out : IO.FS.Stream) (step : σ → String → σ × String) (s : σ) : IO Unit := do
@@ -28,4 +29,5 @@ def main (args : List String) : IO UInt32 := do
   | ["memfs"] => loop stdin stdout Engine.MemFs.stepLine MemFs.init; return 0
   | ["rofs"] => loop stdin stdout Engine.RoFs.stepLine {}; return 0
   | ["cowfs"] => loop stdin stdout Engine.CowFs.stepLine {}; return 0
+  | ["bpfs"] => loop stdin stdout Engine.BpFs.stepLine {}; return 0
   | _ => IO.eprintln "usage: driver <engine>"; return 2
